@@ -7,11 +7,16 @@ half of `input_block` holds the last `B` samples of `X` (zeros before the start)
 in its first `B` rows, the contributions of the filter taps `q ≥ (i+1)·B` to the output rows that are due `i` blocks
 from now.  One `filter_block` call preserves it and returns the FIR rows (`os_step_spec`); everything else is
 induction over the block list.
+
+Second half: the renderer models with that convolver AND the numpy exceptions (`renderAllOS`, `renderAllTSOS`) against the
+totalised FIR models (`renderAll`, `renderAllTS`), call by call, through the relation `ChkRel` of `Proofs/C02Checked.lean`
+(`renderAllOS_rel`, `render_refines_spec_os`, `renderAllOS_ok_tracks`, `renderAllOS_ok_first_matrix`, …).
 -/
 import Earverif.Model.OverlapSave
 import Earverif.Proofs.C02Fir
 import Earverif.Proofs.C02Render
 import Earverif.Proofs.C02RenderTS
+import Earverif.Proofs.C02Checked
 namespace Earverif.Stream
 set_option linter.unusedSectionVars false
 set_option linter.unusedSimpArgs false
@@ -558,215 +563,614 @@ theorem obj_init_rel (c : Cfg V) (hB : 1 ≤ c.block_size) (hf : c.taps ≠ []) 
   ⟨rfl, rfl, vbs_init_sim OS.step (Fir.step c.taps) _ c.block_size hB (os_fir_stepSim c.taps c.block_size hB hf)
     (fun t blk => fir_step_length c.taps t blk c.block_size) 0 _ _ (osFirRel_init c.taps c.block_size)⟩
 
+omit [LawfulRMod V] in
+theorem chkTrack_ne_base (n : Nat) (t : Nat) (e : Err) : chkTrack n t ≠ some (ChkErr.base e) := by
+  unfold chkTrack; split <;> simp
+
+omit [LawfulRMod V] in
+theorem chkTracks_ne_base (n : Nat) (ts : List Nat) (e : Err) : chkTracks n ts ≠ some (ChkErr.base e) := by
+  unfold chkTracks; split
+  · split <;> simp
+  · simp
+
+/-- The tracks of the Objects / DirectSpeakers channels are columns of the input. -/
+def TrackChansOK {B : Type} (n_in : Nat) (chans : List (Nat × B)) : Prop :=
+  ∀ p ∈ chans, chkTrack (ε := Err) n_in p.1 = none
+
+/-- The tracks of the HOA channels are columns of the input, every item has one, and every decode matrix still to be
+applied has one column per track. -/
+def HoaChansOK (n_in : Nat) (chans : List (List Nat × HoaBpc V)) : Prop :=
+  ∀ p ∈ chans, chkTracks (ε := Err) n_in p.1 = none ∧
+    QOK (fun m : MetaBlock (List V) => okDot p.1.length m.gains) (okDot p.1.length) p.2
+
+omit [LawfulRMod V] in
+/-- A channel loop of single-track channels (Objects, DirectSpeakers). -/
+theorem trackChans_rel {M S K W : Type} (strict : Prop) (n_in : Nat)
+    (interp : S → M → Except Err (S × List (PBlock K))) (upd : K → Nat → Rat → W → W) (ss : Int)
+    (inp : List (List Rat)) (chans : List (Nat × Bpc M S K)) (out : List W)
+    (h : strict → TrackChansOK n_in chans) :
+    ChkRel strict (fun r r' => r = r' ∧ (strict → TrackChansOK n_in r.1))
+      (procChansC (chkTrack n_in) (fun t b out => liftC (b.process interp upd ss (track inp t) out)) chans out)
+      (procChans interp upd ss (track inp) chans out) := by
+  have := procChansC_rel strict (chkTrack n_in) (fun t b out => liftC (b.process interp upd ss (track inp t) out))
+    interp upd ss (track inp) (fun _ _ => True) (chkTrack_ne_base n_in)
+    (fun t b out _ => (chkRel_liftC strict _).mono strict _ (fun a b hab => ⟨hab, fun _ => trivial⟩))
+    chans out (fun hs p hp => ⟨h hs p hp, trivial⟩)
+  exact this.mono strict _ (fun a b hab => ⟨hab.1, fun hs p hp => (hab.2 hs p hp).1⟩)
+
+omit [LawfulRMod V] in
+/-- `HOARenderer.render`. -/
+theorem hoaRenderC_rel (strict : Prop) (c : Cfg V) (chans : List (List Nat × HoaBpc V)) (ss : Int)
+    (inp : List (List Rat)) (h : strict → HoaChansOK c.n_in chans) :
+    ChkRel strict (fun r r' => r = r' ∧ (strict → HoaChansOK c.n_in r.1))
+      (hoaRenderC c chans ss inp) (hoaRender c chans ss inp) :=
+  procChansC_rel strict (chkTracks c.n_in)
+    (fun ts b out => bpcProcessC (okDot ts.length) (interpFixed c.sr) matUpd ss (tracks inp ts) out b)
+    (interpFixed c.sr) matUpd ss (tracks inp)
+    (fun ts b => QOK (fun m : MetaBlock (List V) => okDot ts.length m.gains) (okDot ts.length) b)
+    (chkTracks_ne_base c.n_in)
+    (fun ts b out hb => bpcProcessC_rel strict _ _ (interpFixed c.sr) (interpFixed_ok c.sr _) matUpd ss
+      (tracks inp ts) out b hb)
+    chans _ h
+
 /-- One `ObjectRenderer.render` call. -/
-theorem obj_render_sim (c : Cfg V) (hB : 1 ≤ c.block_size) (hf : c.taps ≠ []) (a : ObjStateOS V) (b : ObjState V)
-    (h : ObjRel c a b) (S0 : Int) (inp : List (List Rat)) :
-    ExRel (fun r r' => ObjRel c r.1 r'.1 ∧ r.2 = r'.2) (a.render c S0 inp) (b.render c S0 inp) := by
+theorem obj_render_sim (strict : Prop) (c : Cfg V) (hB : 1 ≤ c.block_size) (hf : c.taps ≠ []) (a : ObjStateOS V)
+    (b : ObjState V) (h : ObjRel c a b) (hs : strict → TrackChansOK c.n_in a.chans) (S0 : Int)
+    (inp : List (List Rat)) :
+    ChkRel strict (fun r r' => ObjRel c r.1 r'.1 ∧ r.2 = r'.2 ∧ (strict → TrackChansOK c.n_in r.1.chans))
+      (a.render c S0 inp) (b.render c S0 inp) := by
   obtain ⟨hch, hmem, hvbs⟩ := h
-  simp only [ObjStateOS.render, ObjState.render, bind, Except.bind, hch, hmem]
-  cases procChans (interpObject c.sr) GainKern.upd S0 (track inp) b.chans (List.replicate inp.length (0 : V × V)) with
-  | error e => simp
-  | ok r =>
-    obtain ⟨chans, interpolated⟩ := r
-    obtain ⟨h1, h2⟩ := vbs_process_sim OS.step (Fir.step c.taps) _ c.block_size
+  have h1 := trackChans_rel strict c.n_in (interpObject c.sr) GainKern.upd S0 inp a.chans
+    (List.replicate inp.length (0 : V × V)) hs
+  simp only [ObjStateOS.render, ObjState.render, objChansC, bind, Except.bind, ← hch, hmem]
+  generalize procChansC (chkTrack c.n_in) _ a.chans _ = ra at h1 ⊢
+  generalize procChans (interpObject c.sr) GainKern.upd S0 (track inp) a.chans _ = rb at h1 ⊢
+  rcases ra with e | r <;> rcases rb with e' | r'
+  · cases e <;> chk_close h1
+  · cases e <;> chk_close h1
+  · chk_close h1
+  · obtain ⟨chans, interpolated⟩ := r
+    simp only [chkRel_ok_ok] at h1
+    obtain ⟨rfl, hinv⟩ := h1
+    obtain ⟨h2, h3⟩ := vbs_process_sim OS.step (Fir.step c.taps) _ c.block_size
       (os_fir_stepSim c.taps c.block_size hB hf) (fun t blk => fir_step_length c.taps t blk c.block_size) 0
       a.vbs b.vbs hvbs (interpolated.map Prod.snd)
-    simp only [pure, Except.pure, exRel_ok, h2]
-    exact ⟨⟨rfl, rfl, h1⟩, trivial⟩
+    simp only [pure, Except.pure, chkRel_ok_ok, h3]
+    exact ⟨⟨rfl, rfl, h2⟩, trivial, hinv⟩
+
+/-- What `strict` (the static index conditions of the session) guarantees about a `Renderer` state. -/
+structure SInv (c : Cfg V) (a : RStateOS V) : Prop where
+  obj : TrackChansOK c.n_in a.obj.chans
+  ds : TrackChansOK c.n_in a.ds
+  hoa : HoaChansOK c.n_in a.hoa
 
 /-- The two `Renderer` states agree on everything but the convolver inside the object renderer. -/
-structure RRel (c : Cfg V) (a : RStateOS V) (b : RState V) : Prop where
+structure RRel (strict : Prop) (c : Cfg V) (a : RStateOS V) (b : RState V) : Prop where
   al : a.aligner = b.aligner
   obj : ObjRel c a.obj b.obj
   ds : a.ds = b.ds
   hoa : a.hoa = b.hoa
   ss : a.start_sample = b.start_sample
-
-theorem r_init_rel (c : Cfg V) (hB : 1 ≤ c.block_size) (hf : c.taps ≠ []) (objs : List (ObjItem V))
-    (dss : List (DsItem V)) (hoas : List (HoaItem V)) :
-    RRel c (RStateOS.init c objs dss hoas) (RState.init c objs dss hoas) :=
-  ⟨rfl, obj_init_rel c hB hf objs, rfl, rfl, rfl⟩
+  inv : strict → SInv c a
 
 /-- One `Renderer.render` call. -/
-theorem r_render_sim (c : Cfg V) (hB : 1 ≤ c.block_size) (hf : c.taps ≠ []) (a : RStateOS V) (b : RState V)
-    (h : RRel c a b) (samples : List (List Rat)) :
-    ExRel (fun r r' => RRel c r.1 r'.1 ∧ r.2 = r'.2) (a.render c samples) (b.render c samples) := by
-  obtain ⟨hal, hobj, hds, hhoa, hss⟩ := h
-  have ho := obj_render_sim c hB hf a.obj b.obj hobj b.start_sample samples
-  simp only [RStateOS.render, RState.render, bind, Except.bind, hal, hds, hhoa, hss]
+theorem r_render_sim (strict : Prop) (c : Cfg V) (hB : 1 ≤ c.block_size) (hf : c.taps ≠ []) (a : RStateOS V)
+    (b : RState V) (h : RRel strict c a b) (samples : List (List Rat)) :
+    ChkRel strict (fun r r' => RRel strict c r.1 r'.1 ∧ r.2 = r'.2) (a.render c samples) (b.render c samples) := by
+  obtain ⟨hal, hobj, hds, hhoa, hss, hinv⟩ := h
+  have ho := obj_render_sim strict c hB hf a.obj b.obj hobj (fun hs => (hinv hs).obj) b.start_sample samples
+  have hd := trackChans_rel strict c.n_in (interpFixed c.sr) (fun (g : V) _ x o => o + RMod.smul x g) b.start_sample
+    samples a.ds (List.replicate samples.length 0) (fun hs => (hinv hs).ds)
+  have hh := hoaRenderC_rel strict c a.hoa b.start_sample samples (fun hs => (hinv hs).hoa)
+  simp only [RStateOS.render, RState.render, dsRenderC, dsRender, bind, Except.bind, hal, ← hds, ← hhoa, hss] at hd hh ⊢
   generalize a.obj.render c b.start_sample samples = ra at ho ⊢
   generalize b.obj.render c b.start_sample samples = rb at ho ⊢
-  cases ra with
-  | error e =>
-    cases rb with
-    | error e' => simpa using ho
-    | ok r' => simp at ho
-  | ok r =>
-    cases rb with
-    | error e' => simp at ho
-    | ok r' =>
-      obtain ⟨obj, o1⟩ := r
-      obtain ⟨obj', o1'⟩ := r'
-      simp only [exRel_ok] at ho
-      obtain ⟨ho1, ho2⟩ := ho
-      subst ho2
-      simp only
-      cases liftA (b.aligner.add (b.start_sample - c.overall_delay) o1) with
-      | error e => simp
-      | ok al1 =>
+  rcases ra with e | r <;> rcases rb with e' | r'
+  · cases e <;> chk_close ho
+  · cases e <;> chk_close ho
+  · chk_close ho
+  · obtain ⟨obj, o1⟩ := r
+    obtain ⟨obj', o1'⟩ := r'
+    simp only [chkRel_ok_ok] at ho
+    obtain ⟨ho1, ho2, ho3⟩ := ho
+    subst ho2
+    simp only
+    cases liftA (b.aligner.add (b.start_sample - c.overall_delay) o1) with
+    | error e => simp
+    | ok al1 =>
+      simp only [liftC_ok]
+      generalize procChansC (chkTrack c.n_in) _ a.ds _ = ra at hd ⊢
+      generalize procChans (interpFixed c.sr) _ b.start_sample (track samples) a.ds _ = rb at hd ⊢
+      rcases ra with e | r <;> rcases rb with e' | r'
+      · cases e <;> chk_close hd
+      · cases e <;> chk_close hd
+      · chk_close hd
+      · obtain ⟨ds, o2⟩ := r
+        simp only [chkRel_ok_ok] at hd
+        obtain ⟨rfl, hd2⟩ := hd
         simp only
-        cases dsRender c b.ds b.start_sample samples with
+        cases liftA (al1.add b.start_sample o2) with
         | error e => simp
-        | ok r2 =>
-          obtain ⟨ds, o2⟩ := r2
-          simp only
-          cases liftA (al1.add b.start_sample o2) with
-          | error e => simp
-          | ok al2 =>
+        | ok al2 =>
+          simp only [liftC_ok]
+          generalize hoaRenderC c a.hoa b.start_sample samples = ra at hh ⊢
+          generalize hoaRender c a.hoa b.start_sample samples = rb at hh ⊢
+          rcases ra with e | r <;> rcases rb with e' | r'
+          · cases e <;> chk_close hh
+          · cases e <;> chk_close hh
+          · chk_close hh
+          · obtain ⟨hoa, o3⟩ := r
+            simp only [chkRel_ok_ok] at hh
+            obtain ⟨rfl, hh2⟩ := hh
             simp only
-            cases hoaRender c b.hoa b.start_sample samples with
+            cases liftA (al2.add b.start_sample o3) with
             | error e => simp
-            | ok r3 =>
-              obtain ⟨hoa, o3⟩ := r3
-              simp only
-              cases liftA (al2.add b.start_sample o3) with
+            | ok al3 =>
+              simp only [liftC_ok]
+              cases liftA al3.get with
               | error e => simp
-              | ok al3 =>
-                simp only
-                cases liftA al3.get with
-                | error e => simp
-                | ok r4 =>
-                  obtain ⟨ret, al4⟩ := r4
-                  simp only [pure, Except.pure, exRel_ok]
-                  exact ⟨⟨rfl, ho1, rfl, rfl, rfl⟩, trivial⟩
+              | ok r4 =>
+                obtain ⟨ret, al4⟩ := r4
+                simp only [pure, Except.pure, chkRel_ok_ok, liftC_ok]
+                exact ⟨⟨rfl, ho1, rfl, rfl, rfl, fun hs => ⟨ho3 hs, hd2 hs, hh2 hs⟩⟩, trivial⟩
 
 /-- Any sequence of `render` calls. -/
-theorem r_run_sim (c : Cfg V) (hB : 1 ≤ c.block_size) (hf : c.taps ≠ []) : ∀ (parts : List (List (List Rat)))
-    (a : RStateOS V) (b : RState V), RRel c a b →
-    ExRel (fun r r' => RRel c r.1 r'.1 ∧ r.2 = r'.2) (RStateOS.run c a parts) (RState.run c b parts) := by
+theorem r_run_sim (strict : Prop) (c : Cfg V) (hB : 1 ≤ c.block_size) (hf : c.taps ≠ []) :
+    ∀ (parts : List (List (List Rat))) (a : RStateOS V) (b : RState V), RRel strict c a b →
+    ChkRel strict (fun r r' => RRel strict c r.1 r'.1 ∧ r.2 = r'.2) (RStateOS.run c a parts) (RState.run c b parts) := by
   intro parts
   induction parts with
   | nil => intro a b h; simpa [RStateOS.run, RState.run, pure, Except.pure] using h
   | cons p ps ih =>
     intro a b h
-    have h1 := r_render_sim c hB hf a b h p
+    have h1 := r_render_sim strict c hB hf a b h p
     simp only [RStateOS.run, RState.run, bind, Except.bind]
     generalize a.render c p = ra at h1 ⊢
     generalize b.render c p = rb at h1 ⊢
-    cases ra with
-    | error e =>
-      cases rb with
-      | error e' => simpa using h1
-      | ok r' => simp at h1
-    | ok r =>
-      cases rb with
-      | error e' => simp at h1
-      | ok r' =>
-        obtain ⟨a1, o⟩ := r
-        obtain ⟨b1, o'⟩ := r'
-        simp only [exRel_ok] at h1
-        obtain ⟨h2, h3⟩ := h1
-        subst h3
-        have h4 := ih a1 b1 h2
-        simp only
-        generalize RStateOS.run c a1 ps = ra at h4 ⊢
-        generalize RState.run c b1 ps = rb at h4 ⊢
-        cases ra with
-        | error e =>
-          cases rb with
-          | error e' => simpa using h4
-          | ok r' => simp at h4
-        | ok r =>
-          cases rb with
-          | error e' => simp at h4
-          | ok r' =>
-            obtain ⟨a2, os⟩ := r
-            obtain ⟨b2, os'⟩ := r'
-            simp only [exRel_ok] at h4
-            obtain ⟨h5, h6⟩ := h4
-            subst h6
-            simp only [pure, Except.pure, exRel_ok]
-            exact ⟨h5, trivial⟩
-
-/-- **`renderAllOS_eq`** — a whole session (`render` on every block of ANY partition, then `get_tail`) of the renderer
-with the partitioned overlap-save convolver inside `ObjectRenderer` returns exactly what the renderer with the
-direct-form FIR returns (same exception or same audio) — no hypothesis on the items or the timelines. -/
-theorem renderAllOS_eq (c : Cfg V) (hB : 1 ≤ c.block_size) (hf : c.taps ≠ []) (objs : List (ObjItem V))
-    (dss : List (DsItem V)) (hoas : List (HoaItem V)) (parts : List (List (List Rat))) :
-    renderAllOS c objs dss hoas parts = renderAll c objs dss hoas parts := by
-  have h1 := r_run_sim c hB hf parts _ _ (r_init_rel c hB hf objs dss hoas)
-  simp only [renderAllOS, renderAll, bind, Except.bind]
-  generalize RStateOS.run c (RStateOS.init c objs dss hoas) parts = ra at h1 ⊢
-  generalize RState.run c (RState.init c objs dss hoas) parts = rb at h1 ⊢
-  cases ra with
-  | error e =>
-    cases rb with
-    | error e' => simp at h1; simp [h1]
-    | ok r' => simp at h1
-  | ok r =>
-    cases rb with
-    | error e' => simp at h1
-    | ok r' =>
-      obtain ⟨a1, os⟩ := r
-      obtain ⟨b1, os'⟩ := r'
-      simp only [exRel_ok] at h1
+    rcases ra with e | r <;> rcases rb with e' | r'
+    · cases e <;> chk_close h1
+    · cases e <;> chk_close h1
+    · chk_close h1
+    · obtain ⟨a1, o⟩ := r
+      obtain ⟨b1, o'⟩ := r'
+      simp only [chkRel_ok_ok] at h1
       obtain ⟨h2, h3⟩ := h1
       subst h3
-      have h4 := r_render_sim c hB hf a1 b1 h2 (List.replicate c.overall_delay (List.replicate c.n_in 0))
-      simp only [RStateOS.get_tail, RState.get_tail]
-      generalize a1.render c _ = ra at h4 ⊢
-      generalize b1.render c _ = rb at h4 ⊢
-      cases ra with
-      | error e =>
-        cases rb with
-        | error e' => simp at h4; simp [h4]
-        | ok r' => simp at h4
-      | ok r =>
-        cases rb with
-        | error e' => simp at h4
-        | ok r' =>
-          simp only [exRel_ok] at h4
-          simp [pure, Except.pure, h4.2]
+      have h4 := ih a1 b1 h2
+      simp only
+      generalize RStateOS.run c a1 ps = ra at h4 ⊢
+      generalize RState.run c b1 ps = rb at h4 ⊢
+      rcases ra with e | r <;> rcases rb with e' | r'
+      · cases e <;> chk_close h4
+      · cases e <;> chk_close h4
+      · chk_close h4
+      · obtain ⟨a2, os⟩ := r
+        obtain ⟨b2, os'⟩ := r'
+        simp only [chkRel_ok_ok] at h4
+        obtain ⟨h5, h6⟩ := h4
+        subst h6
+        simp only [pure, Except.pure, chkRel_ok_ok]
+        exact ⟨h5, trivial⟩
 
 /-! ### the quantifier of the property theorems
 
-The models index with defaults where numpy raises: `track`/`tracks`/`xAt` read `frame.getD t 0` (numpy:
-`input_samples[:, track]` raises `IndexError` for a track outside the input), `dot`/`matApply` zip the input row with
-the decode-matrix columns (`np.dot` raises `ValueError` when the matrix width is not the number of tracks), and the
-empty decorrelation filter makes `ObjectRenderer.__init__` raise (`VariableBlockSizeAdapter.__init__` calls
-`filter_block`: `IndexError`; `Cfg.decorrelator_delay` is then never used — its `Nat` value `(0 − 1)/2 = 0` differs from
-Python's `(0 − 1)//2 = −1` only in that unreachable case).  The `…_os` property theorems are therefore stated inside
-`SessionWF` (= `SessionOK` + these conditions) and for inputs of the declared width (`InputOK`); the older FIR-model
-theorems (`render_refines_spec`, `C02_block_independent`, …) are statements about the totalised model for all inputs. -/
+`renderAllOS` returns the numpy exceptions where the real code raises them (`ChkErr`: a track outside the input, an HOA
+item without tracks, a decode matrix whose width is not the number of tracks), so the `…_os` theorems need no hypothesis
+"to stay inside the code": with accepted timelines (`SessionOK`) and a decorrelation filter with at least one tap (an empty
+filter array makes `ObjectRenderer.__init__` raise: `VariableBlockSizeAdapter.__init__` calls `filter_block`,
+`IndexError`; `Cfg.decorrelator_delay` is then never used — its `Nat` value `(0 − 1)/2 = 0` differs from Python's
+`(0 − 1)//2 = −1` only in that unreachable case) a session either returns the specified audio or raises one of those three
+exceptions, and under the static conditions `IndexOK` it returns the audio.  The width of the input is `c.n_in` (as in the
+C20 model an empty block still has a width): a block of the model stands for a numpy array of shape `(n, n_in)` when its
+frames have `n_in` samples (`InputOK`); the theorems do not need that as a hypothesis.  The older FIR-model theorems
+(`render_refines_spec`, `C02_block_independent`, …) are statements about the totalised model. -/
 
-/-- Track indices inside the input and decode matrices as wide as the item has tracks. -/
+/-- Track indices inside the input, at least one track per HOA item, decode matrices as wide as the item has tracks. -/
 structure IndexOK (c : Cfg V) (objs : List (ObjItem V)) (dss : List (DsItem V)) (hoas : List (HoaItem V)) : Prop where
   obj_tracks : ∀ it ∈ objs, it.track < c.n_in
   ds_tracks : ∀ it ∈ dss, it.track < c.n_in
   hoa_tracks : ∀ it ∈ hoas, ∀ t ∈ it.tracks, t < c.n_in
+  hoa_nonempty : ∀ it ∈ hoas, it.tracks ≠ []
   hoa_gains : ∀ it ∈ hoas, ∀ b ∈ it.blocks, b.gains.length = it.tracks.length
 
 /-- Every input frame has `n_in` samples (`input_samples` of shape `(n, n_in)`; `get_tail` is called with
 `n_channels = n_in`). -/
 def InputOK (c : Cfg V) (x : List (List Rat)) : Prop := ∀ fr ∈ x, fr.length = c.n_in
 
-/-- A session inside the property's quantifier: accepted timelines and `block_size ≥ 1` (`SessionOK`), indices and matrix
+omit [LawfulRMod V] in
+theorem sinv_init (c : Cfg V) (objs : List (ObjItem V)) (dss : List (DsItem V)) (hoas : List (HoaItem V))
+    (h : IndexOK c objs dss hoas) : SInv c (RStateOS.init c objs dss hoas) where
+  obj := by
+    intro p hp
+    simp only [RStateOS.init, ObjStateOS.init, List.mem_map] at hp
+    obtain ⟨it, hit, rfl⟩ := hp
+    simp [chkTrack, h.obj_tracks it hit]
+  ds := by
+    intro p hp
+    simp only [RStateOS.init, List.mem_map] at hp
+    obtain ⟨it, hit, rfl⟩ := hp
+    simp [chkTrack, h.ds_tracks it hit]
+  hoa := by
+    intro p hp
+    simp only [RStateOS.init, List.mem_map] at hp
+    obtain ⟨it, hit, rfl⟩ := hp
+    refine ⟨?_, ?_, ?_⟩
+    · have h1 : it.tracks.all (· < c.n_in) = true := by
+        rw [List.all_eq_true]; intro t ht; simpa using h.hoa_tracks it hit t ht
+      have h2 : it.tracks.isEmpty = false := by
+        cases hts : it.tracks with
+        | nil => exact absurd hts (h.hoa_nonempty it hit)
+        | cons _ _ => rfl
+      simp [chkTracks, h1, h2]
+    · intro m hm
+      simpa [okDot] using h.hoa_gains it hit m hm
+    · intro pb hpb
+      cases hpb
+
+theorem r_init_rel (strict : Prop) (c : Cfg V) (hB : 1 ≤ c.block_size) (hf : c.taps ≠ []) (objs : List (ObjItem V))
+    (dss : List (DsItem V)) (hoas : List (HoaItem V)) (hs : strict → IndexOK c objs dss hoas) :
+    RRel strict c (RStateOS.init c objs dss hoas) (RState.init c objs dss hoas) :=
+  ⟨rfl, obj_init_rel c hB hf objs, rfl, rfl, rfl, fun h => sinv_init c objs dss hoas (hs h)⟩
+
+/-- `renderAllOS_rel` for any `strict` that implies the static index conditions. -/
+theorem renderAllOS_rel' (strict : Prop) (c : Cfg V) (hB : 1 ≤ c.block_size) (hf : c.taps ≠ [])
+    (objs : List (ObjItem V)) (dss : List (DsItem V)) (hoas : List (HoaItem V))
+    (hs : strict → IndexOK c objs dss hoas) (parts : List (List (List Rat))) :
+    ChkRel strict (fun r r' => r = r') (renderAllOS c objs dss hoas parts) (renderAll c objs dss hoas parts) := by
+  have h1 := r_run_sim strict c hB hf parts _ _ (r_init_rel strict c hB hf objs dss hoas hs)
+  simp only [renderAllOS, renderAll, bind, Except.bind]
+  generalize RStateOS.run c (RStateOS.init c objs dss hoas) parts = ra at h1 ⊢
+  generalize RState.run c (RState.init c objs dss hoas) parts = rb at h1 ⊢
+  rcases ra with e | r <;> rcases rb with e' | r'
+  · cases e <;> chk_close h1
+  · cases e <;> chk_close h1
+  · chk_close h1
+  · obtain ⟨a1, os⟩ := r
+    obtain ⟨b1, os'⟩ := r'
+    simp only [chkRel_ok_ok] at h1
+    obtain ⟨h2, h3⟩ := h1
+    subst h3
+    have h4 := r_render_sim strict c hB hf a1 b1 h2 (List.replicate c.overall_delay (List.replicate c.n_in 0))
+    simp only [RStateOS.get_tail, RState.get_tail]
+    generalize a1.render c _ = ra at h4 ⊢
+    generalize b1.render c _ = rb at h4 ⊢
+    rcases ra with e | r <;> rcases rb with e' | r'
+    · cases e <;> chk_close h4
+    · cases e <;> chk_close h4
+    · chk_close h4
+    · simp only [chkRel_ok_ok] at h4
+      simp [pure, Except.pure, h4.2]
+
+/-- **`renderAllOS_rel`** — a whole session (`render` on every block of ANY partition, then `get_tail`) of the renderer
+with the partitioned overlap-save convolver inside `ObjectRenderer` and the numpy exceptions, against the renderer with
+the direct-form FIR and totalised indexing — no hypothesis on the items or the timelines: same audio, or the same
+exception, or one of the three numpy exceptions, and the latter only when the static index conditions fail. -/
+theorem renderAllOS_rel (c : Cfg V) (hB : 1 ≤ c.block_size) (hf : c.taps ≠ []) (objs : List (ObjItem V))
+    (dss : List (DsItem V)) (hoas : List (HoaItem V)) (parts : List (List (List Rat))) :
+    ChkRel (IndexOK c objs dss hoas) (fun r r' => r = r') (renderAllOS c objs dss hoas parts)
+      (renderAll c objs dss hoas parts) :=
+  renderAllOS_rel' _ c hB hf objs dss hoas id parts
+
+/-- **`renderAllOS_eq`** — under the static index conditions a whole session of the renderer with the overlap-save
+convolver returns exactly what the renderer with the direct-form FIR returns (same exception or same audio). -/
+theorem renderAllOS_eq (c : Cfg V) (hB : 1 ≤ c.block_size) (hf : c.taps ≠ []) (objs : List (ObjItem V))
+    (dss : List (DsItem V)) (hoas : List (HoaItem V)) (hidx : IndexOK c objs dss hoas)
+    (parts : List (List (List Rat))) :
+    renderAllOS c objs dss hoas parts = liftC (renderAll c objs dss hoas parts) := by
+  have h := renderAllOS_rel c hB hf objs dss hoas parts
+  generalize renderAllOS c objs dss hoas parts = ra at h ⊢
+  generalize renderAll c objs dss hoas parts = rb at h ⊢
+  rcases ra with e | r <;> rcases rb with e' | r'
+  · cases e with
+    | base e0 => simp only [chkRel_base_error] at h; subst h; rfl
+    | trackIndex => exact absurd hidx h
+    | emptyStack => exact absurd hidx h
+    | dotShape => exact absurd hidx h
+  · cases e with
+    | base e0 => exact h.elim
+    | trackIndex => exact absurd hidx h
+    | emptyStack => exact absurd hidx h
+    | dotShape => exact absurd hidx h
+  · exact h.elim
+  · simp only [chkRel_ok_ok] at h; subst h; rfl
+
+/-- A session raised one of the numpy exceptions of the model. -/
+def RaisesNumpy {ε α : Type} (x : Except (ChkErr ε) α) : Prop :=
+  x = .error .trackIndex ∨ x = .error .emptyStack ∨ x = .error .dotShape
+
+/-- **`render_refines_spec_os`** — `render_refines_spec` with the partitioned overlap-save convolver in place of the FIR
+stand-in and with the numpy exceptions in the model instead of index hypotheses: for every configuration with
+`block_size ≥ 1` and a non-empty decorrelation filter, every mix of items with accepted timelines (`SessionOK`), every
+input and EVERY partition of it into `render` calls, the session EITHER returns all blocks followed by the tail
+concatenating to the sample-by-sample specification `RenderSpec.out` of the concatenated input, OR raises `IndexError`
+(a track outside the input) / `ValueError` (`np.stack` of no tracks, `np.dot` with a decode matrix of the wrong width) —
+and the latter only if the static index conditions `IndexOK` fail. -/
+theorem render_refines_spec_os (c : Cfg V) (objs : List (ObjItem V)) (dss : List (DsItem V)) (hoas : List (HoaItem V))
+    (hok : SessionOK c objs dss hoas) (hf : c.taps ≠ []) (parts : List (List (List Rat))) :
+    renderAllOS c objs dss hoas parts = .ok (RenderSpec.out c objs dss hoas parts.flatten) ∨
+      (¬ IndexOK c objs dss hoas ∧ RaisesNumpy (renderAllOS c objs dss hoas parts)) := by
+  have h := renderAllOS_rel c hok.block_size_pos hf objs dss hoas parts
+  rw [render_refines_spec c objs dss hoas hok parts] at h
+  rcases h.of_ok with ⟨a, h1, rfl⟩ | ⟨h1, h2⟩
+  · exact .inl h1
+  · exact .inr ⟨h1, h2⟩
+
+/-- **`render_refines_spec_os_ok`** — inside the static index conditions no call raises and the output is the
+specification. -/
+theorem render_refines_spec_os_ok (c : Cfg V) (objs : List (ObjItem V)) (dss : List (DsItem V)) (hoas : List (HoaItem V))
+    (hok : SessionOK c objs dss hoas) (hf : c.taps ≠ []) (hidx : IndexOK c objs dss hoas)
+    (parts : List (List (List Rat))) :
+    renderAllOS c objs dss hoas parts = .ok (RenderSpec.out c objs dss hoas parts.flatten) := by
+  rcases render_refines_spec_os c objs dss hoas hok hf parts with h | ⟨h, -⟩
+  · exact h
+  · exact absurd hidx h
+
+/-! #### a track outside the input always raises -/
+
+/-- Every track of every item is a column of the input and every HOA item has at least one track. -/
+structure TracksOK (c : Cfg V) (objs : List (ObjItem V)) (dss : List (DsItem V)) (hoas : List (HoaItem V)) : Prop where
+  obj_tracks : ∀ it ∈ objs, it.track < c.n_in
+  ds_tracks : ∀ it ∈ dss, it.track < c.n_in
+  hoa_tracks : ∀ it ∈ hoas, ∀ t ∈ it.tracks, t < c.n_in
+  hoa_nonempty : ∀ it ∈ hoas, it.tracks ≠ []
+
+omit [RMod V] [LawfulRMod V] in
+theorem procChansC_ok_chk {α B ε W : Type} (chkT : α → Option (ChkErr ε))
+    (proc : α → B → List W → Except (ChkErr ε) (B × List W)) :
+    ∀ (chans : List (α × B)) (out : List W) r, procChansC chkT proc chans out = .ok r →
+      ∀ p ∈ chans, chkT p.1 = none := by
+  intro chans
+  induction chans with
+  | nil => intro out r _ p hp; cases hp
+  | cons q rest ih =>
+    intro out r h p hp
+    obtain ⟨t, b⟩ := q
+    simp only [procChansC] at h
+    cases hc : chkT t with
+    | some e => rw [hc] at h; cases h
+    | none =>
+      rw [hc] at h
+      simp only at h
+      cases h1 : proc t b out with
+      | error e => rw [h1] at h; cases h
+      | ok r1 =>
+        obtain ⟨b1, out1⟩ := r1
+        rw [h1] at h
+        simp only at h
+        cases h2 : procChansC chkT proc rest out1 with
+        | error e => rw [h2] at h; cases h
+        | ok r2 =>
+          rcases List.mem_cons.mp hp with rfl | hp
+          · exact hc
+          · exact ih out1 r2 h2 p hp
+
+omit [LawfulRMod V] in
+/-- A successful `render` call has checked every channel's tracks. -/
+theorem render_ok_tracks (c : Cfg V) (st : RStateOS V) (blk : List (List Rat)) (r : RStateOS V × List V)
+    (h : st.render c blk = .ok r) :
+    TrackChansOK c.n_in st.obj.chans ∧ TrackChansOK c.n_in st.ds ∧
+      ∀ p ∈ st.hoa, chkTracks (ε := Err) c.n_in p.1 = none := by
+  simp only [RStateOS.render] at h
+  cases h1 : st.obj.render c st.start_sample blk with
+  | error e => rw [h1] at h; cases h
+  | ok r1 =>
+    obtain ⟨obj, o1⟩ := r1
+    rw [h1] at h
+    simp only at h
+    cases h2 : liftC (liftA (st.aligner.add (st.start_sample - c.overall_delay) o1)) with
+    | error e => rw [h2] at h; cases h
+    | ok al1 =>
+      rw [h2] at h
+      simp only at h
+      cases h3 : dsRenderC c st.ds st.start_sample blk with
+      | error e => rw [h3] at h; cases h
+      | ok r3 =>
+        obtain ⟨ds, o2⟩ := r3
+        rw [h3] at h
+        simp only at h
+        cases h4 : liftC (liftA (al1.add st.start_sample o2)) with
+        | error e => rw [h4] at h; cases h
+        | ok al2 =>
+          rw [h4] at h
+          simp only at h
+          cases h5 : hoaRenderC c st.hoa st.start_sample blk with
+          | error e => rw [h5] at h; cases h
+          | ok r5 =>
+            refine ⟨?_, procChansC_ok_chk _ _ _ _ _ h3, procChansC_ok_chk _ _ _ _ _ h5⟩
+            simp only [ObjStateOS.render, objChansC] at h1
+            cases h6 : procChansC (chkTrack (ε := Err) c.n_in)
+                (fun t b out => liftC (b.process (interpObject c.sr) GainKern.upd st.start_sample (track blk t) out))
+                st.obj.chans (List.replicate blk.length (0 : V × V)) with
+            | error e => rw [h6] at h1; cases h1
+            | ok r6 => exact procChansC_ok_chk _ _ _ _ _ h6
+
+omit [LawfulRMod V] in
+/-- A session that returns audio made a successful first call (the first `render`, or `get_tail`) on the initial state. -/
+theorem renderAllOS_ok_first_call (c : Cfg V) (objs : List (ObjItem V)) (dss : List (DsItem V)) (hoas : List (HoaItem V))
+    (parts : List (List (List Rat))) (out : List V) (h : renderAllOS c objs dss hoas parts = .ok out) :
+    ∃ blk r, (RStateOS.init c objs dss hoas).render c blk = .ok r := by
+  simp only [renderAllOS] at h
+  cases parts with
+  | nil =>
+    simp only [RStateOS.run, RStateOS.get_tail] at h
+    cases h1 : (RStateOS.init c objs dss hoas).render c (List.replicate c.overall_delay (List.replicate c.n_in 0)) with
+    | error e => rw [h1] at h; cases h
+    | ok r => exact ⟨_, r, h1⟩
+  | cons p ps =>
+    simp only [RStateOS.run] at h
+    cases h1 : (RStateOS.init c objs dss hoas).render c p with
+    | error e => rw [h1] at h; cases h
+    | ok r => exact ⟨_, r, h1⟩
+
+omit [LawfulRMod V] in
+/-- **`renderAllOS_ok_tracks`** — if a session returns audio (whatever the timelines), every track of every item is a
+column of the input and every HOA item has a track: `input_samples[:, track_index]` / `np.stack` are evaluated for every
+channel on the very first call (the first `render`, or `get_tail` when there is none).  Contrapositive: a track outside
+the input, or an HOA item without tracks, makes EVERY session raise, for every blocking. -/
+theorem renderAllOS_ok_tracks (c : Cfg V) (objs : List (ObjItem V)) (dss : List (DsItem V)) (hoas : List (HoaItem V))
+    (parts : List (List (List Rat))) (out : List V) (h : renderAllOS c objs dss hoas parts = .ok out) :
+    TracksOK c objs dss hoas := by
+  have hfirst := renderAllOS_ok_first_call c objs dss hoas parts out h
+  obtain ⟨blk, r, hr⟩ := hfirst
+  obtain ⟨h1, h2, h3⟩ := render_ok_tracks c _ blk r hr
+  have key : ∀ t : Nat, chkTrack (ε := Err) c.n_in t = none → t < c.n_in := by
+    intro t ht
+    unfold chkTrack at ht
+    split at ht
+    · assumption
+    · cases ht
+  refine ⟨?_, ?_, ?_, ?_⟩
+  · intro it hit
+    exact key _ (h1 (it.track, ⟨it.blocks, {}, []⟩) (by
+      simp only [RStateOS.init, ObjStateOS.init, List.mem_map]; exact ⟨it, hit, rfl⟩))
+  · intro it hit
+    exact key _ (h2 (it.track, ⟨it.blocks, {}, []⟩) (by
+      simp only [RStateOS.init, List.mem_map]; exact ⟨it, hit, rfl⟩))
+  · intro it hit t ht
+    have := h3 (it.tracks, ⟨it.blocks, {}, []⟩) (by
+      simp only [RStateOS.init, List.mem_map]; exact ⟨it, hit, rfl⟩)
+    simp only [chkTracks] at this
+    split at this
+    · rename_i hall
+      rw [List.all_eq_true] at hall
+      simpa using hall t ht
+    · cases this
+  · intro it hit hnil
+    have := h3 (it.tracks, ⟨it.blocks, {}, []⟩) (by
+      simp only [RStateOS.init, List.mem_map]; exact ⟨it, hit, rfl⟩)
+    simp only [chkTracks, hnil, List.all_nil, List.isEmpty_nil, if_true] at this
+    cases this
+
+/-! #### a mis-shaped first decode matrix always raises -/
+
+omit [RMod V] [LawfulRMod V] in
+theorem procChansC_ok_proc {α B ε W : Type} (chkT : α → Option (ChkErr ε))
+    (proc : α → B → List W → Except (ChkErr ε) (B × List W)) :
+    ∀ (chans : List (α × B)) (out : List W) r, procChansC chkT proc chans out = .ok r →
+      ∀ p ∈ chans, ∃ out' r', proc p.1 p.2 out' = .ok r' := by
+  intro chans
+  induction chans with
+  | nil => intro out r _ p hp; cases hp
+  | cons q rest ih =>
+    intro out r h p hp
+    obtain ⟨t, b⟩ := q
+    simp only [procChansC] at h
+    cases hc : chkT t with
+    | some e => rw [hc] at h; cases h
+    | none =>
+      rw [hc] at h
+      simp only at h
+      cases h1 : proc t b out with
+      | error e => rw [h1] at h; cases h
+      | ok r1 =>
+        obtain ⟨b1, out1⟩ := r1
+        rw [h1] at h
+        simp only at h
+        cases h2 : procChansC chkT proc rest out1 with
+        | error e => rw [h2] at h; cases h
+        | ok r2 =>
+          rcases List.mem_cons.mp hp with rfl | hp
+          · exact ⟨out, _, h1⟩
+          · exact ih out1 r2 h2 p hp
+
+omit [RMod V] [LawfulRMod V] in
+theorem refill_nonempty {M S K : Type} (interp : S → M → Except Err (S × List (PBlock K))) (check : Option Int)
+    (src : List M) (st : S) (pb : PBlock K) (q : List (PBlock K)) :
+    refill interp check src st (pb :: q) = .ok ⟨src, st, pb :: q⟩ := by
+  cases src with
+  | nil => rfl
+  | cons m ms => simp [refill, pure, Except.pure]
+
+omit [RMod V] [LawfulRMod V] in
+/-- A fresh HOA channel: the first decode matrix is checked on the first call. -/
+theorem bpcProcessC_first {G ι W : Type} (okK : G → Bool) (sr : Nat) (upd : G → Nat → ι → W → W) (ss : Int)
+    (inp : List ι) (out : List W) (m : MetaBlock G) (rest : List (MetaBlock G)) (st : IState G) r
+    (h : bpcProcessC okK (interpFixed sr) upd ss inp out ⟨m :: rest, st, []⟩ = .ok r) : okK m.gains = true := by
+  simp only [bpcProcessC, refill, ne_eq, not_true_eq_false, if_false, bind, Except.bind, List.nil_append,
+    interpFixed] at h
+  cases hb : blockStartEnd st.tlast m with
+  | error e => rw [hb] at h; cases h
+  | ok se =>
+    obtain ⟨s, e⟩ := se
+    rw [hb] at h
+    simp only [refill_nonempty] at h
+    split at h
+    · cases h
+    · rename_i b hb2
+      split at hb2
+      · simp only [throw, throwThe, MonadExceptOf.throw] at hb2
+        cases hb2
+      · cases hb2
+        simp only [Bpc.fuel, List.length_cons, List.length_nil, bpcLoopC] at h
+        by_contra hk
+        simp only [Bool.not_eq_true] at hk
+        simp only [PBlock.new, hk, if_true] at h
+        cases h
+
+omit [LawfulRMod V] in
+theorem render_ok_hoa (c : Cfg V) (st : RStateOS V) (blk : List (List Rat)) (r : RStateOS V × List V)
+    (h : st.render c blk = .ok r) : ∃ r5, hoaRenderC c st.hoa st.start_sample blk = .ok r5 := by
+  simp only [RStateOS.render] at h
+  cases h1 : st.obj.render c st.start_sample blk with
+  | error e => rw [h1] at h; cases h
+  | ok r1 =>
+    obtain ⟨obj, o1⟩ := r1
+    rw [h1] at h
+    simp only at h
+    cases h2 : liftC (liftA (st.aligner.add (st.start_sample - c.overall_delay) o1)) with
+    | error e => rw [h2] at h; cases h
+    | ok al1 =>
+      rw [h2] at h
+      simp only at h
+      cases h3 : dsRenderC c st.ds st.start_sample blk with
+      | error e => rw [h3] at h; cases h
+      | ok r3 =>
+        obtain ⟨ds, o2⟩ := r3
+        rw [h3] at h
+        simp only at h
+        cases h4 : liftC (liftA (al1.add st.start_sample o2)) with
+        | error e => rw [h4] at h; cases h
+        | ok al2 =>
+          rw [h4] at h
+          simp only at h
+          cases h5 : hoaRenderC c st.hoa st.start_sample blk with
+          | error e => rw [h5] at h; cases h
+          | ok r5 => exact ⟨r5, rfl⟩
+
+omit [LawfulRMod V] in
+/-- **`renderAllOS_ok_first_matrix`** — if a session returns audio, the FIRST decode matrix of every HOA item has one
+column per track: the first processing block of a channel is at the head of its queue on the very first call, and
+`np.dot` is evaluated on it whether or not any sample overlaps.  Contrapositive: a mis-shaped first matrix makes every
+session raise, for every input and blocking.  (A mis-shaped LATER matrix raises exactly when it is reached; that dynamic
+condition is not characterised here — tied by correspondence.) -/
+theorem renderAllOS_ok_first_matrix (c : Cfg V) (objs : List (ObjItem V)) (dss : List (DsItem V))
+    (hoas : List (HoaItem V)) (parts : List (List (List Rat))) (out : List V)
+    (h : renderAllOS c objs dss hoas parts = .ok out) :
+    ∀ it ∈ hoas, ∀ m rest, it.blocks = m :: rest → m.gains.length = it.tracks.length := by
+  intro it hit m rest hm
+  obtain ⟨blk, r, hr⟩ := renderAllOS_ok_first_call c objs dss hoas parts out h
+  obtain ⟨r5, h5⟩ := render_ok_hoa c _ blk r hr
+  obtain ⟨out', r', hp⟩ := procChansC_ok_proc _ _ _ _ _ h5 (it.tracks, ⟨it.blocks, {}, []⟩) (by
+    simp only [RStateOS.init, List.mem_map]; exact ⟨it, hit, rfl⟩)
+  simp only [hm] at hp
+  have := bpcProcessC_first _ _ _ _ _ _ _ _ _ _ hp
+  simpa [okDot] using this
+
+/-- **`renderAllOS_raises_of_bad_track`** — with accepted timelines, a track outside the input (or an HOA item without
+tracks) makes the session raise one of the numpy exceptions, for every input and every blocking. -/
+theorem renderAllOS_raises_of_bad_track (c : Cfg V) (objs : List (ObjItem V)) (dss : List (DsItem V))
+    (hoas : List (HoaItem V)) (hok : SessionOK c objs dss hoas) (hf : c.taps ≠ []) (parts : List (List (List Rat)))
+    (hbad : ¬ TracksOK c objs dss hoas) : RaisesNumpy (renderAllOS c objs dss hoas parts) := by
+  rcases render_refines_spec_os c objs dss hoas hok hf parts with h | ⟨-, h⟩
+  · exact absurd (renderAllOS_ok_tracks c objs dss hoas parts _ h) hbad
+  · exact h
+
+/-- A session inside the static conditions: accepted timelines and `block_size ≥ 1` (`SessionOK`), indices and matrix
 shapes that numpy accepts (`IndexOK`), a decorrelation filter with at least one tap. -/
 structure SessionWF (c : Cfg V) (objs : List (ObjItem V)) (dss : List (DsItem V)) (hoas : List (HoaItem V)) : Prop where
   ok : SessionOK c objs dss hoas
   index : IndexOK c objs dss hoas
   taps_ne : c.taps ≠ []
-
-/-- **`render_refines_spec_os`** — `render_refines_spec` with the partitioned overlap-save convolver in place of the
-FIR stand-in, inside the stated quantifier: for every configuration with `block_size ≥ 1` and a non-empty decorrelation
-filter, every mix of accepted items with in-range tracks, every input of the declared width and EVERY partition of it
-into `render` calls, no call raises and all returned blocks followed by the tail concatenate to the sample-by-sample
-specification `RenderSpec.out` of the concatenated input.  (`IndexOK`/`InputOK` are not used by the proof: they mark
-where the model stops being the code.) -/
-theorem render_refines_spec_os (c : Cfg V) (objs : List (ObjItem V)) (dss : List (DsItem V)) (hoas : List (HoaItem V))
-    (hok : SessionWF c objs dss hoas) (parts : List (List (List Rat))) (_hin : InputOK c parts.flatten) :
-    renderAllOS c objs dss hoas parts = .ok (RenderSpec.out c objs dss hoas parts.flatten) := by
-  rw [renderAllOS_eq c hok.ok.block_size_pos hok.taps_ne, render_refines_spec c objs dss hoas hok.ok parts]
 
 end Earverif.Renderer
 
@@ -793,9 +1197,9 @@ theorem obj_init_rel_ts (c : Cfg V) (hB : 1 ≤ c.block_size) (hf : c.taps ≠ [
       (os_fir_stepSim c.taps c.block_size hB hf) (fun t blk => fir_step_length c.taps t blk c.block_size) 0 _ _
       (osFirRel_init c.taps c.block_size)⟩
 
-theorem obj_render_sim_ts (c : Cfg V) (hB : 1 ≤ c.block_size) (hf : c.taps ≠ []) (a : ObjStateTSOS V)
+theorem obj_render_sim_ts (strict : Prop) (c : Cfg V) (hB : 1 ≤ c.block_size) (hf : c.taps ≠ []) (a : ObjStateTSOS V)
     (b : ObjStateTS V) (h : ObjRelTS c a b) (S0 : Int) (inp : List (List Rat)) :
-    ExRel (fun r r' => ObjRelTS c r.1 r'.1 ∧ r.2 = r'.2) (a.render c S0 inp) (b.render c S0 inp) := by
+    ChkRel strict (fun r r' => ObjRelTS c r.1 r'.1 ∧ r.2 = r'.2) (a.render c S0 inp) (b.render c S0 inp) := by
   obtain ⟨hch, hmem, hvbs⟩ := h
   simp only [ObjStateTSOS.render, ObjStateTS.render, hch, hmem]
   cases procChansTS (interpObject c.sr) GainKern.upd S0 (fun p => TrackSpec.step c.sr c.n_in p inp) b.chans
@@ -806,19 +1210,71 @@ theorem obj_render_sim_ts (c : Cfg V) (hB : 1 ≤ c.block_size) (hf : c.taps ≠
     obtain ⟨h1, h2⟩ := vbs_process_sim OS.step (Fir.step c.taps) _ c.block_size
       (os_fir_stepSim c.taps c.block_size hB hf) (fun t blk => fir_step_length c.taps t blk c.block_size) 0
       a.vbs b.vbs hvbs (interpolated.map Prod.snd)
-    simp only [exRel_ok, h2]
+    simp only [liftC_ok, chkRel_ok_ok, h2]
     exact ⟨⟨rfl, rfl, h1⟩, trivial⟩
 
-structure RRelTS (c : Cfg V) (a : RStateTSOS V) (b : RStateTS V) : Prop where
+structure RRelTS (strict : Prop) (c : Cfg V) (a : RStateTSOS V) (b : RStateTS V) : Prop where
   al : a.aligner = b.aligner
   obj : ObjRelTS c a.obj b.obj
   ds : a.ds = b.ds
   hoa : a.hoa = b.hoa
   ss : a.start_sample = b.start_sample
+  inv : strict → ∀ p ∈ a.hoa, HoaChanOK p
 
-theorem r_init_rel_ts (c : Cfg V) (hB : 1 ≤ c.block_size) (hf : c.taps ≠ []) (objs : List (ObjItemTS V))
-    (dss : List (DsItemTS V)) (hoas : List (HoaItemTS V)) :
-    ExRel (RRelTS c) (RStateTSOS.init c objs dss hoas) (RStateTS.init c objs dss hoas) := by
+/-- Every decode matrix of every HOA item has one column per track spec of the item (`np.dot` raises otherwise). -/
+def HoaGainsOK (hoas : List (HoaItemTS V)) : Prop := ∀ it ∈ hoas, ∀ b ∈ it.blocks, b.gains.length = it.specs.length
+
+omit [RMod V] [LawfulRMod V] in
+theorem buildMulti_length : ∀ (ss : List (TrackSpec.Spec Rat)) (ps : List (TrackSpec.Proc Rat)),
+    TrackSpec.buildMulti ss = .ok ps → ps.length = ss.length := by
+  intro ss
+  induction ss with
+  | nil => intro ps h; simp only [TrackSpec.buildMulti, Except.ok.injEq] at h; subst h; rfl
+  | cons t ts ih =>
+    intro ps h
+    simp only [TrackSpec.buildMulti] at h
+    cases h1 : TrackSpec.trackProcessor t with
+    | error e => rw [h1] at h; cases h
+    | ok p =>
+      rw [h1] at h
+      simp only at h
+      cases h2 : TrackSpec.buildMulti ts with
+      | error e => rw [h2] at h; cases h
+      | ok ps1 =>
+        rw [h2] at h
+        simp only [Except.ok.injEq] at h
+        rw [← h, List.length_cons, List.length_cons, ih ps1 h2]
+
+omit [RMod V] [LawfulRMod V] in
+theorem mem_mkChans {I P M S K : Type} (mk : I → Except TrackSpec.Err P) (blocksOf : I → List M) (st0 : S) :
+    ∀ (items : List I) (chans : List (P × Bpc M S K)), mkChans mk blocksOf st0 items = .ok chans →
+      ∀ p ∈ chans, ∃ it ∈ items, mk it = .ok p.1 ∧ p.2 = ⟨blocksOf it, st0, []⟩ := by
+  intro items
+  induction items with
+  | nil => intro chans h p hp; simp only [mkChans, Except.ok.injEq] at h; subst h; cases hp
+  | cons it rest ih =>
+    intro chans h p hp
+    simp only [mkChans] at h
+    cases h1 : mk it with
+    | error e => rw [h1] at h; cases h
+    | ok q =>
+      rw [h1] at h
+      simp only at h
+      cases h2 : mkChans mk blocksOf st0 rest with
+      | error e => rw [h2] at h; cases h
+      | ok cs =>
+        rw [h2] at h
+        simp only [Except.ok.injEq] at h
+        subst h
+        rcases List.mem_cons.mp hp with rfl | hp
+        · exact ⟨it, List.mem_cons_self, h1, rfl⟩
+        · obtain ⟨it', hm, e1, e2⟩ := ih cs h2 p hp
+          exact ⟨it', List.mem_cons_of_mem _ hm, e1, e2⟩
+
+theorem r_init_rel_ts (strict : Prop) (c : Cfg V) (hB : 1 ≤ c.block_size) (hf : c.taps ≠ [])
+    (objs : List (ObjItemTS V)) (dss : List (DsItemTS V)) (hoas : List (HoaItemTS V))
+    (hs : strict → HoaGainsOK hoas) :
+    ExRel (RRelTS strict c) (RStateTSOS.init c objs dss hoas) (RStateTS.init c objs dss hoas) := by
   have h := obj_init_rel_ts c hB hf objs
   simp only [RStateTSOS.init, RStateTS.init]
   generalize ObjStateTSOS.init c objs = ra at h ⊢
@@ -838,117 +1294,123 @@ theorem r_init_rel_ts (c : Cfg V) (hB : 1 ≤ c.block_size) (hf : c.taps ≠ [])
       | error e => simp
       | ok ds =>
         simp only
-        cases mkChans (fun it : HoaItemTS V => TrackSpec.buildMulti it.specs) (·.blocks) ({} : IState (List V)) hoas with
+        cases hm : mkChans (fun it : HoaItemTS V => TrackSpec.buildMulti it.specs) (·.blocks) ({} : IState (List V))
+            hoas with
         | error e => simp
         | ok hoa =>
           simp only [exRel_ok]
-          exact ⟨rfl, h, rfl, rfl, rfl⟩
+          refine ⟨rfl, h, rfl, rfl, rfl, ?_⟩
+          intro hst p hp
+          obtain ⟨it, hit, e1, e2⟩ := mem_mkChans _ _ _ hoas hoa hm p hp
+          have hl := buildMulti_length it.specs p.1 e1
+          refine ⟨?_, ?_⟩
+          · intro m hm'
+            rw [e2] at hm'
+            simpa [okDot, hl] using hs hst it hit m hm'
+          · intro pb hpb
+            rw [e2] at hpb
+            cases hpb
 
-theorem r_render_sim_ts (c : Cfg V) (hB : 1 ≤ c.block_size) (hf : c.taps ≠ []) (a : RStateTSOS V) (b : RStateTS V)
-    (h : RRelTS c a b) (samples : List (List Rat)) :
-    ExRel (fun r r' => RRelTS c r.1 r'.1 ∧ r.2 = r'.2) (a.render c samples) (b.render c samples) := by
-  obtain ⟨hal, hobj, hds, hhoa, hss⟩ := h
-  have ho := obj_render_sim_ts c hB hf a.obj b.obj hobj b.start_sample samples
-  simp only [RStateTSOS.render, RStateTS.render, hal, hds, hhoa, hss]
+theorem r_render_sim_ts (strict : Prop) (c : Cfg V) (hB : 1 ≤ c.block_size) (hf : c.taps ≠ []) (a : RStateTSOS V)
+    (b : RStateTS V) (h : RRelTS strict c a b) (samples : List (List Rat)) :
+    ChkRel strict (fun r r' => RRelTS strict c r.1 r'.1 ∧ r.2 = r'.2) (a.render c samples) (b.render c samples) := by
+  obtain ⟨hal, hobj, hds, hhoa, hss, hinv⟩ := h
+  have ho := obj_render_sim_ts strict c hB hf a.obj b.obj hobj b.start_sample samples
+  have hh := hoaChansTSC_rel strict c b.start_sample samples a.hoa (List.replicate samples.length 0) hinv
+  simp only [RStateTSOS.render, RStateTS.render, hoaRenderTSC, hoaRenderTS, hal, hds, ← hhoa, hss] at hh ⊢
   generalize a.obj.render c b.start_sample samples = ra at ho ⊢
   generalize b.obj.render c b.start_sample samples = rb at ho ⊢
-  cases ra with
-  | error e =>
-    cases rb with
-    | error e' => simpa using ho
-    | ok r' => simp at ho
-  | ok r =>
-    cases rb with
-    | error e' => simp at ho
-    | ok r' =>
-      obtain ⟨obj, o1⟩ := r
-      obtain ⟨obj', o1'⟩ := r'
-      simp only [exRel_ok] at ho
-      obtain ⟨ho1, ho2⟩ := ho
-      subst ho2
-      simp only
-      cases liftR (liftA (b.aligner.add (b.start_sample - c.overall_delay) o1)) with
+  rcases ra with e | r <;> rcases rb with e' | r'
+  · cases e <;> chk_close ho
+  · cases e <;> chk_close ho
+  · chk_close ho
+  · obtain ⟨obj, o1⟩ := r
+    obtain ⟨obj', o1'⟩ := r'
+    simp only [chkRel_ok_ok] at ho
+    obtain ⟨ho1, ho2⟩ := ho
+    subst ho2
+    simp only
+    cases liftR (liftA (b.aligner.add (b.start_sample - c.overall_delay) o1)) with
+    | error e => simp
+    | ok al1 =>
+      simp only [liftC_ok]
+      cases dsRenderTS c b.ds b.start_sample samples with
       | error e => simp
-      | ok al1 =>
-        simp only
-        cases dsRenderTS c b.ds b.start_sample samples with
+      | ok r2 =>
+        obtain ⟨ds, o2⟩ := r2
+        simp only [liftC_ok]
+        cases liftR (liftA (al1.add b.start_sample o2)) with
         | error e => simp
-        | ok r2 =>
-          obtain ⟨ds, o2⟩ := r2
-          simp only
-          cases liftR (liftA (al1.add b.start_sample o2)) with
-          | error e => simp
-          | ok al2 =>
+        | ok al2 =>
+          simp only [liftC_ok]
+          generalize hoaChansTSC c b.start_sample samples a.hoa _ = ra at hh ⊢
+          generalize procChansTS (interpFixed c.sr) matUpd b.start_sample _ a.hoa _ = rb at hh ⊢
+          rcases ra with e | r <;> rcases rb with e' | r'
+          · cases e <;> chk_close hh
+          · cases e <;> chk_close hh
+          · chk_close hh
+          · obtain ⟨hoa, o3⟩ := r
+            simp only [chkRel_ok_ok] at hh
+            obtain ⟨rfl, hh2⟩ := hh
             simp only
-            cases hoaRenderTS c b.hoa b.start_sample samples with
+            cases liftR (liftA (al2.add b.start_sample o3)) with
             | error e => simp
-            | ok r3 =>
-              obtain ⟨hoa, o3⟩ := r3
-              simp only
-              cases liftR (liftA (al2.add b.start_sample o3)) with
+            | ok al3 =>
+              simp only [liftC_ok]
+              cases liftR (liftA al3.get) with
               | error e => simp
-              | ok al3 =>
-                simp only
-                cases liftR (liftA al3.get) with
-                | error e => simp
-                | ok r4 =>
-                  obtain ⟨ret, al4⟩ := r4
-                  simp only [exRel_ok]
-                  exact ⟨⟨rfl, ho1, rfl, rfl, rfl⟩, trivial⟩
+              | ok r4 =>
+                obtain ⟨ret, al4⟩ := r4
+                simp only [chkRel_ok_ok, liftC_ok]
+                exact ⟨⟨rfl, ho1, rfl, rfl, rfl, hh2⟩, trivial⟩
 
-theorem r_run_sim_ts (c : Cfg V) (hB : 1 ≤ c.block_size) (hf : c.taps ≠ []) : ∀ (parts : List (List (List Rat)))
-    (a : RStateTSOS V) (b : RStateTS V), RRelTS c a b →
-    ExRel (fun r r' => RRelTS c r.1 r'.1 ∧ r.2 = r'.2) (RStateTSOS.run c a parts) (RStateTS.run c b parts) := by
+theorem r_run_sim_ts (strict : Prop) (c : Cfg V) (hB : 1 ≤ c.block_size) (hf : c.taps ≠ []) :
+    ∀ (parts : List (List (List Rat))) (a : RStateTSOS V) (b : RStateTS V), RRelTS strict c a b →
+    ChkRel strict (fun r r' => RRelTS strict c r.1 r'.1 ∧ r.2 = r'.2) (RStateTSOS.run c a parts)
+      (RStateTS.run c b parts) := by
   intro parts
   induction parts with
   | nil => intro a b h; simpa [RStateTSOS.run, RStateTS.run] using h
   | cons p ps ih =>
     intro a b h
-    have h1 := r_render_sim_ts c hB hf a b h p
+    have h1 := r_render_sim_ts strict c hB hf a b h p
     simp only [RStateTSOS.run, RStateTS.run]
     generalize a.render c p = ra at h1 ⊢
     generalize b.render c p = rb at h1 ⊢
-    cases ra with
-    | error e =>
-      cases rb with
-      | error e' => simpa using h1
-      | ok r' => simp at h1
-    | ok r =>
-      cases rb with
-      | error e' => simp at h1
-      | ok r' =>
-        obtain ⟨a1, o⟩ := r
-        obtain ⟨b1, o'⟩ := r'
-        simp only [exRel_ok] at h1
-        obtain ⟨h2, h3⟩ := h1
-        subst h3
-        have h4 := ih a1 b1 h2
-        simp only
-        generalize RStateTSOS.run c a1 ps = ra at h4 ⊢
-        generalize RStateTS.run c b1 ps = rb at h4 ⊢
-        cases ra with
-        | error e =>
-          cases rb with
-          | error e' => simpa using h4
-          | ok r' => simp at h4
-        | ok r =>
-          cases rb with
-          | error e' => simp at h4
-          | ok r' =>
-            obtain ⟨a2, os⟩ := r
-            obtain ⟨b2, os'⟩ := r'
-            simp only [exRel_ok] at h4
-            obtain ⟨h5, h6⟩ := h4
-            subst h6
-            simp only [exRel_ok]
-            exact ⟨h5, trivial⟩
+    rcases ra with e | r <;> rcases rb with e' | r'
+    · cases e <;> chk_close h1
+    · cases e <;> chk_close h1
+    · chk_close h1
+    · obtain ⟨a1, o⟩ := r
+      obtain ⟨b1, o'⟩ := r'
+      simp only [chkRel_ok_ok] at h1
+      obtain ⟨h2, h3⟩ := h1
+      subst h3
+      have h4 := ih a1 b1 h2
+      simp only
+      generalize RStateTSOS.run c a1 ps = ra at h4 ⊢
+      generalize RStateTS.run c b1 ps = rb at h4 ⊢
+      rcases ra with e | r <;> rcases rb with e' | r'
+      · cases e <;> chk_close h4
+      · cases e <;> chk_close h4
+      · chk_close h4
+      · obtain ⟨a2, os⟩ := r
+        obtain ⟨b2, os'⟩ := r'
+        simp only [chkRel_ok_ok] at h4
+        obtain ⟨h5, h6⟩ := h4
+        subst h6
+        simp only [chkRel_ok_ok]
+        exact ⟨h5, trivial⟩
 
-/-- **`renderAllTSOS_eq`** — the same for the renderer with track processors: a whole session with the overlap-save
-convolver returns exactly what the session with the direct-form FIR returns (same exception or same audio). -/
-theorem renderAllTSOS_eq (c : Cfg V) (hB : 1 ≤ c.block_size) (hf : c.taps ≠ []) (objs : List (ObjItemTS V))
+/-- **`renderAllTSOS_rel`** — the same for the renderer with track processors: a whole session with the overlap-save
+convolver and the `np.dot` exception against the session with the direct-form FIR and the totalised decode-matrix
+product: same audio, or the same exception, or a numpy exception — the latter only when some decode matrix does not
+have one column per track spec of its item. -/
+theorem renderAllTSOS_rel (c : Cfg V) (hB : 1 ≤ c.block_size) (hf : c.taps ≠ []) (objs : List (ObjItemTS V))
     (dss : List (DsItemTS V)) (hoas : List (HoaItemTS V)) (parts : List (List (List Rat))) :
-    renderAllTSOS c objs dss hoas parts = renderAllTS c objs dss hoas parts := by
-  have h0 := r_init_rel_ts c hB hf objs dss hoas
+    ChkRel (HoaGainsOK hoas) (fun r r' => r = r') (renderAllTSOS c objs dss hoas parts)
+      (renderAllTS c objs dss hoas parts) := by
+  have h0 := r_init_rel_ts (HoaGainsOK hoas) c hB hf objs dss hoas id
   simp only [renderAllTSOS, renderAllTS]
   generalize RStateTSOS.init c objs dss hoas = ia at h0 ⊢
   generalize RStateTS.init c objs dss hoas = ib at h0 ⊢
@@ -962,56 +1424,82 @@ theorem renderAllTSOS_eq (c : Cfg V) (hB : 1 ≤ c.block_size) (hf : c.taps ≠ 
     | error e' => simp at h0
     | ok b0 =>
       simp only [exRel_ok] at h0
-      have h1 := r_run_sim_ts c hB hf parts a0 b0 h0
+      have h1 := r_run_sim_ts _ c hB hf parts a0 b0 h0
       simp only
       generalize RStateTSOS.run c a0 parts = ra at h1 ⊢
       generalize RStateTS.run c b0 parts = rb at h1 ⊢
-      cases ra with
-      | error e =>
-        cases rb with
-        | error e' => simp at h1; simp [h1]
-        | ok r' => simp at h1
-      | ok r =>
-        cases rb with
-        | error e' => simp at h1
-        | ok r' =>
-          obtain ⟨a1, os⟩ := r
-          obtain ⟨b1, os'⟩ := r'
-          simp only [exRel_ok] at h1
-          obtain ⟨h2, h3⟩ := h1
-          subst h3
-          have h4 := r_render_sim_ts c hB hf a1 b1 h2 (tailFrames c)
-          simp only [RStateTSOS.get_tail, RStateTS.get_tail]
-          generalize a1.render c _ = ra at h4 ⊢
-          generalize b1.render c _ = rb at h4 ⊢
-          cases ra with
-          | error e =>
-            cases rb with
-            | error e' => simp at h4; simp [h4]
-            | ok r' => simp at h4
-          | ok r =>
-            cases rb with
-            | error e' => simp at h4
-            | ok r' =>
-              simp only [exRel_ok] at h4
-              simp [h4.2]
+      rcases ra with e | r <;> rcases rb with e' | r'
+      · cases e <;> chk_close h1
+      · cases e <;> chk_close h1
+      · chk_close h1
+      · obtain ⟨a1, os⟩ := r
+        obtain ⟨b1, os'⟩ := r'
+        simp only [chkRel_ok_ok] at h1
+        obtain ⟨h2, h3⟩ := h1
+        subst h3
+        have h4 := r_render_sim_ts _ c hB hf a1 b1 h2 (tailFrames c)
+        simp only [RStateTSOS.get_tail, RStateTS.get_tail]
+        generalize a1.render c _ = ra at h4 ⊢
+        generalize b1.render c _ = rb at h4 ⊢
+        rcases ra with e | r <;> rcases rb with e' | r'
+        · cases e <;> chk_close h4
+        · cases e <;> chk_close h4
+        · chk_close h4
+        · simp only [chkRel_ok_ok] at h4
+          simp [h4.2]
 
-/-- A session with track processors inside the property's quantifier: `SessionOKTS` (accepted timelines,
-`block_size ≥ 1`, C20's `Spec.wf`: direct indices inside the input, delays ≥ 0, every HOA item has a spec), decode
-matrices as wide as the item has track specs (`np.dot` raises otherwise), a decorrelation filter with at least one
-tap. -/
+/-- **`renderAllTSOS_eq`** — when every decode matrix has one column per track spec, a whole session with the
+overlap-save convolver returns exactly what the session with the direct-form FIR returns (same exception or audio). -/
+theorem renderAllTSOS_eq (c : Cfg V) (hB : 1 ≤ c.block_size) (hf : c.taps ≠ []) (objs : List (ObjItemTS V))
+    (dss : List (DsItemTS V)) (hoas : List (HoaItemTS V)) (hg : HoaGainsOK hoas) (parts : List (List (List Rat))) :
+    renderAllTSOS c objs dss hoas parts = liftC (renderAllTS c objs dss hoas parts) := by
+  have h := renderAllTSOS_rel c hB hf objs dss hoas parts
+  generalize renderAllTSOS c objs dss hoas parts = ra at h ⊢
+  generalize renderAllTS c objs dss hoas parts = rb at h ⊢
+  rcases ra with e | r <;> rcases rb with e' | r'
+  · cases e with
+    | base e0 => simp only [chkRel_base_error] at h; subst h; rfl
+    | trackIndex => exact absurd hg h
+    | emptyStack => exact absurd hg h
+    | dotShape => exact absurd hg h
+  · cases e with
+    | base e0 => exact h.elim
+    | trackIndex => exact absurd hg h
+    | emptyStack => exact absurd hg h
+    | dotShape => exact absurd hg h
+  · exact h.elim
+  · simp only [chkRel_ok_ok] at h; subst h; rfl
+
+/-- **`render_eq_outTS_os`** — `render_eq_outTS` (= `render_refines_spec_ts` written out) with the overlap-save
+convolver in place of the FIR stand-in and the `np.dot` exception in the model: for every `SessionOKTS` session
+(accepted timelines, `block_size ≥ 1`, C20's `Spec.wf`: direct indices inside the input, delays ≥ 0, every HOA item has
+a spec), a non-empty decorrelation filter and EVERY partition, the session EITHER returns the specification `outTS` OR
+raises a numpy exception — and the latter only if some decode matrix does not have one column per track spec. -/
+theorem render_eq_outTS_os (c : Cfg V) (objs : List (ObjItemTS V)) (dss : List (DsItemTS V))
+    (hoas : List (HoaItemTS V)) (hok : SessionOKTS c objs dss hoas) (hf : c.taps ≠ [])
+    (parts : List (List (List Rat))) :
+    renderAllTSOS c objs dss hoas parts = .ok (outTS c objs dss hoas parts.flatten) ∨
+      (¬ HoaGainsOK hoas ∧ RaisesNumpy (renderAllTSOS c objs dss hoas parts)) := by
+  have h := renderAllTSOS_rel c hok.block_size_pos hf objs dss hoas parts
+  rw [render_eq_outTS c objs dss hoas hok parts] at h
+  rcases h.of_ok with ⟨a, h1, rfl⟩ | ⟨h1, h2⟩
+  · exact .inl h1
+  · exact .inr ⟨h1, h2⟩
+
+theorem render_eq_outTS_os_ok (c : Cfg V) (objs : List (ObjItemTS V)) (dss : List (DsItemTS V))
+    (hoas : List (HoaItemTS V)) (hok : SessionOKTS c objs dss hoas) (hf : c.taps ≠ []) (hg : HoaGainsOK hoas)
+    (parts : List (List (List Rat))) :
+    renderAllTSOS c objs dss hoas parts = .ok (outTS c objs dss hoas parts.flatten) := by
+  rcases render_eq_outTS_os c objs dss hoas hok hf parts with h | ⟨h, -⟩
+  · exact h
+  · exact absurd hg h
+
+/-- A session with track processors inside the static conditions: `SessionOKTS`, decode matrices as wide as the item has
+track specs, a decorrelation filter with at least one tap. -/
 structure SessionWFTS (c : Cfg V) (objs : List (ObjItemTS V)) (dss : List (DsItemTS V)) (hoas : List (HoaItemTS V)) :
     Prop where
   ok : SessionOKTS c objs dss hoas
-  hoa_gains : ∀ it ∈ hoas, ∀ b ∈ it.blocks, b.gains.length = it.specs.length
+  hoa_gains : HoaGainsOK hoas
   taps_ne : c.taps ≠ []
-
-/-- **`render_eq_outTS_os`** — `render_eq_outTS` (= `render_refines_spec_ts` written out) with the overlap-save
-convolver in place of the FIR stand-in, inside the stated quantifier (`SessionWFTS`, input of the declared width). -/
-theorem render_eq_outTS_os (c : Cfg V) (objs : List (ObjItemTS V)) (dss : List (DsItemTS V))
-    (hoas : List (HoaItemTS V)) (hok : SessionWFTS c objs dss hoas) (parts : List (List (List Rat)))
-    (_hin : InputOK c parts.flatten) :
-    renderAllTSOS c objs dss hoas parts = .ok (outTS c objs dss hoas parts.flatten) := by
-  rw [renderAllTSOS_eq c hok.ok.block_size_pos hok.taps_ne, render_eq_outTS c objs dss hoas hok.ok parts]
 
 end Earverif.RendererTS
